@@ -28,22 +28,25 @@ META = {
     "specs": ["Nested", "NestedTrace"],
 }
 
-BLOCKS = [["p"], ["cdir"], ["def", 1], ["use", 1], ["nuse", 1], ["fdef", 1], ["fref", 1], ["tgt", 1], ["lnk", 1], ["spec"]]
-MORE = [["code"], ["list"], ["def", 2], ["use", 2], ["nuse", 2], ["fdef", 2], ["fref", 2], ["tgt", 2], ["lnk", 2]]
+BLOCKS = [["p"], ["cdir"], ["def", 1], ["use", 1], ["nuse", 1], ["fdef", 1], ["fref", 1], ["tgt", 1], ["lnk", 1], ["spec"], ["code"]]
+MORE = [["list"], ["def", 2], ["use", 2], ["nuse", 2], ["fdef", 2], ["fref", 2], ["tgt", 2], ["lnk", 2]]
 WRAPPERS = ["btick", "colon", "opts", "nested2", "div", "include", "substitution"]
 
 
 def block_lines(b, i):
     k = b[0]
     if k == "p":
-        return [f"P{i}x"]
+        # white space that matters: a hard break written as two trailing blanks, a tab inside the text, a backslash break
+        return [[f"P{i}x"], [f"P{i}x one  ", "two\ttab"], [f"P{i}x one\\", "two"]][i % 3]
     if k == "code":
-        return ["```", f"C{i}x", "```"]
+        # trailing blanks and tabs inside code are content; an indented code block written with a tab
+        return [["```", f"C{i}x\tt  ", "\tlead  ", "  ", "last", "```"], ["<!-- ends any open list item / footnote definition -->", "", f"\tC{i}x tabbed  ", "\t\tmore"]][i % 2]
     if k == "spec":        # characters that are special in HTML / Jinja / option syntax, a quote, a code span, an autolink
         return [f"> S{i}x a < b & \"c\" 'd' `x<y&z` <https://e.x/?a=1&b=2>", ">", "> :colon: line"]
     if k == "list":
         mk = "-" if i % 2 else "*"          # adjacent lists with the same marker would merge into one
-        return [f"{mk} L{i}x", f"{mk} second"]
+        sep = "\t" if i % 3 == 0 else " "    # a tab after the marker (tab stop 4)
+        return [f"{mk}{sep}L{i}x", f"{mk}{sep}second"]
     if k == "cdir":
         return [":::{tip}", f"D{i}x", ":::"]
     if k == "def":
